@@ -22,8 +22,9 @@ theorem validateCond_iff_model (b : Coords.Box) (xs ys zs xcs ycs zcs : Int) :
     (Coords.axisOk b.xmin b.xmax xcs xs && Coords.axisOk b.ymin b.ymax ycs ys &&
       Coords.axisOk b.zmin b.zmax zcs zs) = true := by
   simp only [Src.validateCond, Coords.axisOk, Bool.and_eq_true, decide_eq_true_eq, beq_iff_eq]
-  -- (`tauto`: the proof survives any regrouping or reordering of the conjuncts in the source)
-  tauto
+  -- (`omega` on both directions: the proof survives regrouping or reordering of the conjuncts, swapped operands of
+  -- `min` / `+`, split chained comparisons, ... in the source)
+  constructor <;> intro h <;> omega
 
 /-- `utils.ceil_div` as written in the source is the model's `ceilDiv` on positive arguments -/
 theorem ceilDiv_eq_model (a b : Nat) (ha : 1 ≤ a) :
